@@ -944,3 +944,161 @@ func VerifVOP1Spec() {
 	verif.Assert(verif.And(r.wf.VCC() == vcc0, verif.And(r.wf.EXEC() == exec0, verif.And(r.wf.SCC() == scc, verif.And(r.wf.M0 == m0, r.wf.PC() == pc)))), "VCC, EXEC, SCC, M0 or PC changed: "+tag)
 	verif.Cover("checked")
 }
+
+// zzvVOP3Spec: three-operand integer/bit VOP3a operations by mnemonic.
+// wide reports a 64-bit destination (and 64-bit second source for shifts).
+func zzvVOP3Spec(name string, s0, s1, s2 uint64) (d uint64, known, wide bool) {
+	lo := func(v uint64) uint64 { return v & 0xffffffff }
+	a, b, c := lo(s0), lo(s1), lo(s2)
+	minu := func(x, y uint64) uint64 { return verif.Ite64(x < y, x, y) }
+	maxu := func(x, y uint64) uint64 { return verif.Ite64(x > y, x, y) }
+	mini := func(x, y uint64) uint64 { return verif.Ite64(int32(x) < int32(y), x, y) }
+	maxi := func(x, y uint64) uint64 { return verif.Ite64(int32(x) > int32(y), x, y) }
+	switch name {
+	case "v_bfe_u32":
+		off, w := b&31, c&31
+		return lo(a>>off) & (uint64(1)<<w - 1), true, false
+	case "v_bfe_i32":
+		off, w := b&31, c&31
+		// S0 is signed: the shift is arithmetic (matters when off+w > 32)
+		f := lo(uint64(int64(int32(a))>>off)) & (uint64(1)<<w - 1)
+		sign := (f >> ((w - 1) & 31)) & 1
+		ext := f | lo(^(uint64(1)<<w - 1))
+		return verif.Ite64(w == 0, 0, verif.Ite64(sign == 1, ext, f)), true, false
+	case "v_bfi_b32":
+		return (a & b) | (lo(^a) & c), true, false
+	case "v_alignbit_b32":
+		return lo((a<<32 | b) >> (c & 31)), true, false
+	case "v_alignbyte_b32":
+		return lo((a<<32 | b) >> (8 * (c & 3))), true, false
+	case "v_min3_u32":
+		return minu(minu(a, b), c), true, false
+	case "v_max3_u32":
+		return maxu(maxu(a, b), c), true, false
+	case "v_med3_u32":
+		return maxu(minu(a, b), minu(maxu(a, b), c)), true, false
+	case "v_min3_i32":
+		return mini(mini(a, b), c), true, false
+	case "v_max3_i32":
+		return maxi(maxi(a, b), c), true, false
+	case "v_med3_i32":
+		return maxi(mini(a, b), mini(maxi(a, b), c)), true, false
+	case "v_sad_u32":
+		return lo(verif.Ite64(a > b, a-b, b-a) + c), true, false
+	case "v_lshl_add_u32":
+		return lo(a<<(b&31) + c), true, false
+	case "v_lshl_or_b32":
+		return lo(a<<(b&31)) | c, true, false
+	case "v_add_lshl_u32":
+		return lo(lo(a+b) << (c & 31)), true, false
+	case "v_add3_u32":
+		return lo(a + b + c), true, false
+	case "v_bfm_b32":
+		return lo((uint64(1)<<(a&31) - 1) << (b & 31)), true, false
+	case "v_bcnt_u32_b32":
+		n := uint64(0)
+		for i := 0; i < 32; i++ {
+			n += (a >> uint(i)) & 1
+		}
+		return lo(n + b), true, false
+	case "v_lshlrev_b64":
+		return s1 << (a & 63), true, true
+	case "v_lshrrev_b64":
+		return s1 >> (a & 63), true, true
+	case "v_ashrrev_i64":
+		return uint64(int64(s1) >> (a & 63)), true, true
+	}
+	return 0, false, false
+}
+
+// VerifVOP3Spec (C03): three-operand integer/bit VOP3a operations (bit-field
+// extract/insert, align, min3/max3/med3, sad, shift-add/or combinations,
+// add3, bfm, bcnt, 64-bit shifts) per lane on both ALUs.
+func VerifVOP3Spec() {
+	gcn3 := verif.Choice(2) == 0
+	var rows []*insts.InstType
+	for _, r := range zzvVRows {
+		if r.Format.FormatType == insts.VOP3a && r.Opcode >= 448 {
+			if _, known, _ := zzvVOP3Spec(r.InstName, 0, 0, 0); known {
+				rows = append(rows, r)
+			}
+		}
+	}
+	row := rows[verif.Choice(len(rows))]
+	inst := zzvEncodeVector(row, !gcn3)
+	if inst == nil {
+		return
+	}
+	a := []int{0, 31, 32, 63}[verif.Choice(verif.Param("specLanes", 4))]
+	b := (a + 37) % 64
+	la, lb := zzvNewLane(0x10), zzvNewLane(0x40)
+	sregs := verif.Bytes(4 * 102)
+	vccRest, scc, m0, pc := verif.U64(), verif.U8()&1, verif.U32(), verif.U64()
+	mask := ^(uint64(1)<<uint(a) | uint64(1)<<uint(b))
+	vcc0 := vccRest&mask | zzvBit(la.vcc, a) | zzvBit(lb.vcc, b)
+	exec0 := zzvBit(la.exec, a) | zzvBit(lb.exec, b)
+	fill := func(wf *emu.Wavefront, lds []byte) {
+		copy(wf.SRegFile, sregs)
+		copy(wf.VRegFile[a*1024:], la.regs)
+		copy(wf.VRegFile[b*1024:], lb.regs)
+		wf.SetEXEC(exec0)
+		wf.SetVCC(vcc0)
+		wf.SetSCC(scc)
+		wf.M0 = m0
+		wf.SetPC(pc)
+	}
+	tag := "vop3a." + row.InstName
+	if gcn3 {
+		tag = "gcn3 " + tag
+	} else {
+		tag = "cdna3 " + tag
+	}
+	r := zzvExec(gcn3, inst, map[uint64]uint8{}, fill)
+	verif.Assert(r.fault == "", "memory fault while executing "+tag)
+	if r.fault != "" {
+		return
+	}
+	if r.notImplemented {
+		verif.Cover("not implemented: " + tag)
+		return
+	}
+	lanes := []int{a, b}
+	ok := true
+	dstBytes := 4
+	for li, l := range []*zzvLane{la, lb} {
+		s0 := zzvRead64(l.regs[4*zzvRSrc0:])
+		s1 := zzvRead64(l.regs[4*zzvRSrc1:])
+		s2 := zzvRead64(l.regs[4*zzvRSrc2:])
+		want, _, wide := zzvVOP3Spec(row.InstName, s0, s1, s2)
+		if wide {
+			dstBytes = 8
+			d0 := zzvRead64(l.regs[4*zzvRDst:])
+			got := zzvRead64(r.wf.VRegFile[lanes[li]*1024+4*zzvRDst:])
+			ok = verif.And(ok, got == verif.Ite64(l.exec, want, d0))
+		} else {
+			d0 := uint64(zzvLE32(l.regs[4*zzvRDst:]))
+			got := uint64(zzvLE32(r.wf.VRegFile[lanes[li]*1024+4*zzvRDst:]))
+			ok = verif.And(ok, got == verif.Ite64(l.exec, want, d0))
+		}
+	}
+	verif.Assert(ok, "vector destination differs from the ISA (or an inactive lane was written): "+tag)
+	frame := true
+	for _, lane := range lanes {
+		src := la
+		if lane == b {
+			src = lb
+		}
+		for i := 0; i < 4*zzvRTop; i++ {
+			if i >= 4*zzvRDst && i < 4*zzvRDst+dstBytes {
+				continue
+			}
+			frame = verif.And(frame, r.wf.VRegFile[lane*1024+i] == src.regs[i])
+		}
+	}
+	for i := range sregs {
+		frame = verif.And(frame, r.wf.SRegFile[i] == sregs[i])
+	}
+	verif.Assert(frame, "a register other than the destination changed: "+tag)
+	verif.Assert(verif.And(r.wf.VCC() == vcc0, verif.And(r.wf.EXEC() == exec0, verif.And(r.wf.SCC() == scc, verif.And(r.wf.M0 == m0, r.wf.PC() == pc)))), "VCC, EXEC, SCC, M0 or PC changed: "+tag)
+	verif.Cover("checked")
+}
